@@ -74,7 +74,7 @@ def step (line : String) : String :=
     match parseExprText (unhexText t) with
     | .error e => s!"parse-err {e}"
     | .ok (e, rest) =>
-      let over := (dropLB rest).isEmpty
+      let over := (skipIgnorable rest).isEmpty
       let r := match eval dummyEnv [] e with
         | .ok (v, _) => s!"ok {showValue v}"
         | .error m => s!"err {m}"
@@ -216,6 +216,10 @@ def step (line : String) : String :=
     let ws := if o.writes.isEmpty then "-" else ",".intercalate (o.writes.map fun (n, d) =>
       s!"{hexOfChars n.toList}:{match d with | some bs => hexOfBytes bs | none => "?"}")
     s!"ok={o.ok} err={match o.errors.head? with | some e => hexOfChars e.toList | none => "-"} asmerr={o.asmErrors} writes={ws} prints={o.prints}"
+  | ["parse", t] =>
+    match parseFile (unhexText t) with
+    | .ok ns => "ok" ++ showNodes ns
+    | .error e => s!"err {e}"
   | _ => "bad-op"
 
 partial def loop (h : IO.FS.Stream) (out : IO.FS.Stream) : IO Unit := do
